@@ -69,6 +69,19 @@ theorem c12_exhaustion_iff (m : Nat) (rs : List Attempt) :
         · intro h i hi
           simpa using h (i + 1) (by omega)
 
+/-- … and it gives up only after having made every one of the configured attempts: an outage that ends in
+    too-many-retries used exactly `m` attempts, and no outage ever uses more -/
+theorem c12_exhausted_outage_used_the_whole_budget (m : Nat) (rs : List Attempt)
+    (h : (reconnect m rs).1 = .tooManyRetries) : (reconnect m rs).2 = m := by
+  induction m generalizing rs with
+  | zero => simp [reconnect]
+  | succ n ih =>
+    unfold reconnect at h ⊢
+    cases hr : rs.headD .recoverable with
+    | ok => rw [hr] at h; simp at h
+    | fatal => rw [hr] at h; simp at h
+    | recoverable => rw [hr] at h; simp only at h ⊢; rw [ih rs.tail h]
+
 /-- an unrecoverable error is reported immediately: at the first attempt that hits it, without using the rest
     of the budget -/
 theorem c12_fatal_immediate (m k : Nat) (rs : List Attempt) (hk : k < m)
@@ -326,6 +339,7 @@ end Selium.KeepAlive
 #print axioms Selium.KeepAlive.recoverable_classification
 #print axioms Selium.KeepAlive.reconnect_used_le
 #print axioms Selium.KeepAlive.c12_exhaustion_iff
+#print axioms Selium.KeepAlive.c12_exhausted_outage_used_the_whole_budget
 #print axioms Selium.KeepAlive.c12_fatal_immediate
 #print axioms Selium.KeepAlive.c12_recovers
 #print axioms Selium.KeepAlive.c12_budget_per_outage
